@@ -6,9 +6,12 @@ from props.common import load_impl, exc_name
 from props import addutil as au
 
 RULE = ("random ADD programs on the real datascope.utility.ADD and on the Lean model Ds.Dd: leaves chain/tree, nesting by stack (2^k side-by-side elements under "
-        "a header tree) and concatenate, edge values set/incremented through get_update_location and on raw edges, then restrict (every variable incl. the first, "
-        "both values), sum (of differently updated copies and of restrict results), evaluation at EVERY assignment and modelcount, <= 5 variables quick / <= 7 "
-        "thorough, value domains AValue[m], AValue[m1,m2], ATally[n,K,c] with invalid edge values; relations checked on the implementation itself: "
+        "a header tree, k = 1-3 factor variables, i.e. up to 8 elements and two inner header levels) and concatenate, edge values set/incremented through "
+        "get_update_location and on raw edges, then restrict (every variable incl. the first, "
+        "both values), sum (of differently updated copies and of restrict results), evaluation at EVERY assignment and modelcount, <= 5 variables quick / <= 6 "
+        "thorough; every third program is built around ONE stack over 1-3 factors (mostly 3) whose elements are separately built and pairwise different, evaluated "
+        "bare, then given non-zero values on its header edges - always on the root edges (level 0) - by location x[factor]==c and on raw header edges, then its FIRST "
+        "variable restricted to 0 AND to 1 with each half evaluated everywhere, restricted again and the two halves summed; value domains AValue[m], AValue[m1,m2], ATally[n,K,c] with invalid edge values; relations checked on the implementation itself: "
         "eval(restrict(d,u,c))(x) = eval(d)(x[u:=c]), eval(sum) = saturating pointwise sum, modelcount = histogram of eval; plus the full AValue/ATally operator "
         "tables (+, -, index, ==, hash) exhaustively for small domains. Non-trivial = program contains a stack or concatenate, an update and at least one of "
         "restrict/sum; distinct = distinct programs.")
@@ -47,7 +50,9 @@ class Machine:
                 return "ok"
             if k == "setedge":
                 d = self.regs[op["d"]]
-                d.update([tuple(e) for e in op["loc"]], au.to_av(self.atype, op["v"]), increment=op["inc"])
+                # an edge is written [level, [node, value]] (the driver reads triples as nested pairs); flat [level, node, value] accepted too
+                d.update([(e[0], e[1][0], e[1][1]) if isinstance(e[1], (list, tuple)) else tuple(e) for e in op["loc"]],
+                         au.to_av(self.atype, op["v"]), increment=op["inc"])
                 return "ok"
             if k == "location":
                 d = self.regs[op["d"]]
@@ -188,7 +193,7 @@ def gen_program(rng, dom, max_units):
         if len(us) >= 2 and depth > 0 and rng.random() < 0.75:
             if rng.random() < 0.5:
                 # stack: k factors on top of 2^k elements over the rest
-                k = rng.randint(1, min(2, len(us) - 1))
+                k = rng.randint(1, min(3 if rng.random() < 0.3 else 2, len(us) - 1))      # 3 factors: the header tree has a second level
                 factors, rest = us[:k], us[k:]
                 base = build(rest, depth - 1)
                 els = []
@@ -265,6 +270,82 @@ def gen_program(rng, dom, max_units):
     return ops, dict(units=units, kinds=sorted(kinds), checks=checks)
 
 
+def gen_stack_program(rng, dom, max_units):
+    """programs around ONE stack with 1-3 factor variables (3 factors = 8 elements and a header tree with two inner levels; header node j, value c ->
+    node 2j+c, so the element reached for (f0, f1, f2) is elements[(f0, f1, f2)]): the 2^k elements are separately built chains/trees made pairwise
+    different by their own updates, the header edges (root edge included) get non-zero values by location (`x[factor] == c`) and on raw level-0 / inner
+    header edges, the stack is evaluated everywhere, then the FIRST variable is restricted to 0 and to 1 (root case of restrict on a diagram whose
+    root edges carry values and whose root has two different children), each result evaluated everywhere, optionally restricted again (new first
+    variable or a random one) and the two halves summed."""
+    ops = []
+    nreg = [0]
+
+    def new():
+        nreg[0] += 1
+        return nreg[0]
+    n = rng.randint(2, max_units)
+    units = rng.sample(range(0, 12), n)
+    k = min(n - 1, rng.choice([1, 2, 2, 3, 3, 3]))
+    factors, rest = units[:k], units[k:]
+    kinds = {"stack", "update", "restrict"}
+    els, diam = [], 0
+    for _ in range(2 ** k):
+        r = new()
+        if len(rest) <= 2 and rng.random() < 0.3:
+            ops.append({"op": "tree", "out": r, "units": rest, "C": 2})
+            diam += 2 ** (len(rest) - 1)
+        else:
+            ops.append({"op": "chain", "out": r, "units": rest, "C": 2})
+            diam += 1
+        for _ in range(rng.randint(1, 2)):
+            # single-unit increments (tracked by the by-definition evaluator) with values from the whole domain: the elements differ from each other
+            ops.append({"op": "update", "d": r, "asg": [[rng.choice(rest), rng.randrange(2)]], "v": au.rand_value(rng, dom, p_inf=0.03, small=False), "inc": True})
+        els.append(r)
+    d = new()
+    ops.append({"op": "stack", "out": d, "factors": factors, "els": els})
+    ops.append({"op": "evalall", "d": d})           # the bare stack, before any raw-edge write: always comparable with its by-definition meaning
+    # values on the header edges; the first one always on the root edges (level 0)
+    for j in range(rng.randint(1, 3)):
+        lvl = 0 if j == 0 else rng.randrange(k)
+        v = au.rand_value(rng, dom, p_inf=0.03, small=(rng.random() < 0.5))
+        if rng.random() < 0.6:
+            ops.append({"op": "update", "d": d, "asg": [[factors[lvl], rng.randrange(2)]], "v": v, "inc": True})
+        else:
+            ops.append({"op": "setedge", "d": d, "loc": [[lvl, [rng.randrange(2 ** lvl), rng.randrange(2)]]], "v": v, "inc": rng.random() < 0.7})
+    ops.append({"op": "evalall", "d": d})
+    ops.append({"op": "modelcount", "d": d})
+    ops.append({"op": "dump", "d": d})
+    checks = []
+    halves = []
+    for v in (0, 1):
+        out = new()
+        ops.append({"op": "restrict", "d": d, "out": out, "unit": units[0], "value": v})
+        ops.append({"op": "evalall", "d": out})
+        ops.append({"op": "modelcount", "d": out})
+        checks.append(("restrict", d, out, 0, v, n))
+        halves.append(out)
+    if n >= 3 and rng.random() < 0.6:
+        # once more on a half: its first variable (the next header level, or the first element variable) or any variable
+        src = rng.choice(halves)
+        left = units[1:]
+        u = left[0] if rng.random() < 0.5 else rng.choice(left)
+        v = rng.randrange(2)
+        out = new()
+        ops.append({"op": "restrict", "d": src, "out": out, "unit": u, "value": v})
+        ops.append({"op": "evalall", "d": out})
+        ops.append({"op": "modelcount", "d": out})
+        checks.append(("restrict", src, out, left.index(u), v, n - 1))
+    if diam * diam <= 64 and rng.random() < 0.5:
+        # the two halves share all arrays but the root (and the values pushed below it)
+        out = new()
+        ops.append({"op": "sum", "a": halves[0], "b": halves[1], "out": out})
+        ops.append({"op": "evalall", "d": out})
+        ops.append({"op": "modelcount", "d": out})
+        checks.append(("sum", halves[0], halves[1], out))
+        kinds.add("sum")
+    return ops, dict(units=units, kinds=sorted(kinds), checks=checks, factors=k)
+
+
 def value_tables(ctx, I):
     """exhaustive operator tables for small domains"""
     doms = [{"box": [2]}, {"box": [1, 2]}, {"tally": [1, 1, 2]}, {"tally": [2, 2, 1]}]
@@ -320,7 +401,8 @@ def run(ctx):
     doms = [{"box": [3]}, {"box": [2, 2]}, {"tally": [2, 1, 2]}, {"tally": [3, 2, 2]}, {"box": [6]}]
     for it in range(n_prog):
         dom = doms[it % len(doms)]
-        ops, meta = gen_program(rng, dom, 5 if q else 6)
+        # every third program is built around one stack with up to three factor variables and restricts its first variable both ways
+        ops, meta = (gen_stack_program if it % 3 == 1 else gen_program)(rng, dom, 5 if q else 6)
         case = dict(dom=dom, ops=ops)
         mach = Machine(I, dom)
         outs = [mach.step(op) for op in ops]
@@ -340,7 +422,9 @@ def run(ctx):
         ans = ctx.model({"op": "addprog", "dom": dom, "ops": ops})
         nontriv = ({"stack", "concat"} & set(meta["kinds"])) and "update" in meta["kinds"] and ({"restrict", "sum"} & set(meta["kinds"]))
         ctx.case(ops, nontrivial=bool(nontriv), sample=(case if len(ops) <= 12 else None), dom=str(dom), **{("has_" + k): True for k in meta["kinds"]})
-        ctx.maxi(variables=len(meta["units"]), ops=len(ops))
+        ctx.maxi(variables=len(meta["units"]), ops=len(ops), stack_factors=max([len(o["factors"]) for o in ops if o["op"] == "stack"] or [0]))
+        if "factors" in meta:
+            ctx.dist["first_variable_of_stack_restricted_both_ways_factors_%d" % meta["factors"]] += 1
         if den_bad is not None:
             ctx.mismatch("evaluation differs from the meaning of the construction (chain/tree = 0, stack selects the element by the factor bits, concatenate adds "
                          "the elements on their argument slices, update adds on the matching assignments, restrict fixes, sum adds) at step %d" % den_bad[0],
